@@ -43,7 +43,7 @@ CaseCtx == Chain @@ [dv |-> DvFn, lca |-> LcaFn, pairs |-> AllPairs]
 PoolDv  == {"d2genuine", "d3genuine"}
 PoolLca == {"l3genuine", "l3fewer", "e3genuine"}
 PoolCtx == Chain @@ [dv |-> Restrict(DvFn, PoolDv \cup {"d2valsnext"}), lca |-> Restrict(LcaFn, PoolLca),
-                     pairs |-> Restrict(AllPairs, {"q2", "q3"})]
+                     pairs |-> Restrict(AllPairs, {"q3"})]
 PoolIds == PoolDv \cup PoolLca
 PoolBegin == {"d2genuine"}
 
@@ -62,9 +62,10 @@ GraphDv  == {"d2genuine", "d3genuine"}
 GraphLca == {"l3genuine", "l3fewer"}
 GraphCtx == Chain @@ [dv |-> Restrict(DvFn, GraphDv \cup {"d2valsnext"}), lca |-> Restrict(LcaFn, GraphLca),
                       pairs |-> Restrict(AllPairs, {"q3"})]
-MidCtx == [GraphCtx EXCEPT !.pairs = Restrict(AllPairs, {"q2", "q3"})]
+MidCtx == GraphCtx
 GraphIds == GraphDv \cup GraphLca
 GraphBegin == {"d2genuine"}
+MidIds == GraphIds \ {"l3fewer"}   \* thorough graph: split AddEvidence instead of the second light item
 NoIds == {}
 
 BoundsAll == {-1, 1}
